@@ -211,3 +211,12 @@ def register(PROPS, CLASSIFIERS, REPLAY_RUNNERS):
         from . import c14stop
         return c14stop.CLASSIFIERS["c14-stop-inside-macrostep-rest-runs"](prob, case, flavor)
     CLASSIFIERS["c14-stop-inside-macrostep-rest-runs"] = _c14stopcls
+
+    # ------------------------------------------------------------------ C07: guards whose params callable raises; C10: done data
+    def _c07params_replay(case, obs, flavor):
+        if "c07params" not in case:
+            return []
+        return _call("c07params", "replay_problems")(case["c07params"], flavor)
+    PROPS["C07"]["oracles"] = list(PROPS["C07"]["oracles"]) + [_c07params_replay]
+    PROPS["C07"]["q_checks"].append(_lazy("c07params", "c07_raising_guard_params"))
+    PROPS["C10"].setdefault("q_checks", []).append(_lazy("c10data", "c10_done_data"))
